@@ -84,6 +84,12 @@ CLAIMED["C18"] = dict(
    note="Assumed: (*Set).lock returns the set's mutex (or nil) holding it and initialises the hash index; (*Set).with releases it (both trusted, bodies not verified). Go maps as (domain, value, cardinality) arrays; element values of type parameter T as an uninterpreted sort.",
    technique="contract-based deductive verification: coupling invariant between a map model and the ghost sequence view of the order list")
 
+CLAIMED["C10"] = dict(
+   text="srv.Service lifecycle as an Owicki-Gries proof over its atomics with auxiliary variables, plus one contract per service goroutine. Protocol invariant J over isRunning / isFinished and the ghost variables finishing (service goroutine between isFinished.Store(true) and isRunning.Store(false)) and late (Start calls that flipped isRunning after the service finished and have not undone it): 'a finished service with no late starter in flight is not running' - i.e. at quiescence after Wait returns Running() is false. Every atomic step of Start, Running and of the service goroutine is proved to preserve J with the state havocked under J and the rely (isFinished is monotone) before each step; Start restores its own late flip before returning (a Start that finds the service finished does not leave it marked running and reports ErrServiceReturned) and returns only nil / ErrServiceAlreadyStarted / ErrServiceReturned. Service goroutine: Run is invoked exactly once; the service context is cancelled after Run returned; Cleanup, if set, runs exactly once, after Run returned, after the shutdown goroutine signalled completion and after the handler signal was closed; isFinished is stored before isRunning is cleared; main signal closed last; panics of Run / Cleanup are recovered into the collector and never escape. Shutdown goroutine: Shutdown runs exactly once and only after the service context ended; the shutdown signal is closed afterwards also when it panics. Error-handler goroutine: the handler runs at most once, only after both signals were received. Not decided: 'exactly one Start returns nil' as a statement over all callers (needs an ownership token for the window between the Swap and Once.Do - the per-call facts proved are that a nil return passed the Swap false->true with isFinished false afterwards), that Wait's result aggregates every error (Collector contracts of C12 give the per-call facts), Close, Worker/Group wrappers.",
+   ref="DESIGN.md 5.5, 7/C10",
+   note="Trusted: sync/atomic sequential consistency, sync.Once, channel close/receive semantics, the Owicki-Gries theorem (an invariant preserved by every atomic step of every goroutine holds in every reachable state), that every write to the Service atomics is in a function under contract (Start, its closures); WaitGroup credit: the counter is the sum of the goroutines' credits. Schedule replays of the two Start defects use the build-tag-guarded yield hooks in srv (no-ops without -tags verif).",
+   technique="contract-based deductive verification: Owicki-Gries invariant with auxiliary variables over sync/atomic steps, per-goroutine contracts with call-order obligations")
+
 NOT_APPLICABLE = {
  "C01": "exactly-once delivery across an unbounded set of goroutines and channels is a whole-execution property; no per-function contract within reach of the generator states it (DESIGN 7/C01)",
  "C04": "liveness (every goroutine eventually exits, a blocked consumer returns promptly): contracts give partial correctness only (DESIGN 7/C04)",
